@@ -56,7 +56,7 @@ func printedSuggestions(meta *common.Meta) int {
 	}
 	// the directed corpus (multi-line replacements), all quoting checkers at once
 	for _, exe := range []string{"go-critic", "gocritic"} {
-		out, _, err := common.Run(180*time.Second, "/verif/corpus/c09", common.GoEnv(), filepath.Join(common.BinDir(), exe), "check", "-enable="+strings.Join(names, ","), ".")
+		out, _, err := common.Run(180*time.Second, c09Corpus(), common.GoEnv(), filepath.Join(common.BinDir(), exe), "check", "-enable="+strings.Join(names, ","), ".")
 		runs++
 		if err != nil {
 			meta.Fail("C09/"+exe+"/run", err.Error(), "corpus/c09")
@@ -76,7 +76,7 @@ func printedSuggestions(meta *common.Meta) int {
 			q := regexp.MustCompile("(?s)" + quoteRules[n].String()).FindStringSubmatch(text)
 			if q != nil && !parsesAsCode(q[2]) {
 				meta.Fail("C09/"+n+"/printed-suggestion-unparsable", fmt.Sprintf("%s prints a suggestion for %s that does not parse as Go: %q", exe, n, q[2]),
-					map[string]string{"exe": exe, "checker": n, "message": text, "dir": "/verif/corpus/c09"})
+					map[string]string{"exe": exe, "checker": n, "message": text, "dir": c09Corpus()})
 			}
 		}
 	}
